@@ -38,10 +38,10 @@ func c11Scenario(name string, clients []gridClient, srvBudget int) *explore.Scen
 		Name:   name,
 		Budget: map[string]int{"srv": srvBudget, "cli": 1},
 		Run: func(x *explore.X) (r explore.Result) {
-			sniMode := x.Choose("cli.sni", 4) // 0 name, 1 RemoveSNIExtension, 2 IP literal, 3 empty name + skip verify
+			sniMode := x.Choose("cli.sni", 5) // 0 name, 1 RemoveSNIExtension, 2 IP literal, 3 empty name + skip verify, 4 another name set with SetSNI after an explicit BuildHandshakeState
 			clientAuth := x.Choose("srv.clientauth", 2) == 1
 			g := clients[x.Choose("client", len(clients))]
-			if sniMode == 1 && isGolang(g.ID) {
+			if (sniMode == 1 || sniMode == 4) && isGolang(g.ID) {
 				r.Obs = "skip"
 				return
 			}
@@ -83,6 +83,12 @@ func c11Scenario(name string, clients []gridClient, srvBudget int) *explore.Scen
 					if sniMode == 1 {
 						return u.RemoveSNIExtension()
 					}
+					if sniMode == 4 {
+						if err := u.BuildHandshakeState(); err != nil {
+							return err
+						}
+						u.SetSNI("b.example")
+					}
 					return nil
 				}})
 				if !(w.OK() && w.EchoOK) {
@@ -98,6 +104,12 @@ func c11Scenario(name string, clients []gridClient, srvBudget int) *explore.Scen
 				}
 				if sniMode == 1 {
 					return u.RemoveSNIExtension()
+				}
+				if sniMode == 4 {
+					if err := u.BuildHandshakeState(); err != nil {
+						return err
+					}
+					u.SetSNI("b.example")
 				}
 				return nil
 			}})
@@ -190,7 +202,7 @@ func c11Scenarios(thorough bool) []*explore.Scenario {
 func init() {
 	register(&Prop{ID: "C11", Level: "exploration", Variant: "A", Scenarios: c11Scenarios,
 		Run: func(c *explore.Check, thorough bool) {
-			c.Rule = "successful handshakes of the C10 grid (client x offered server choices, <=1 (2) server-axis deviations) x SNI mode {name, RemoveSNIExtension, IP literal, empty} x server {no client auth, RequestClientCert} x {first connection, second connection through the same Config and session cache (resumed where the parrot can)}: both ConnectionStates compared field by field (version, suite, ALPN, curve, DidResume, ECHAccepted, ServerName == SNI parsed from the wire) and ExportKeyingMaterial compared for 27 (label, context, length) triples. distinct = (client, sni mode, server choice, client auth). ECH handshakes are compared by the same oracle inside C15."
+			c.Rule = "successful handshakes of the C10 grid (client x offered server choices, <=1 (2) server-axis deviations) x SNI mode {name, RemoveSNIExtension, IP literal, empty, another name through SetSNI after an explicit BuildHandshakeState} x server {no client auth, RequestClientCert} x {first connection, second connection through the same Config and session cache (resumed where the parrot can)}: both ConnectionStates compared field by field (version, suite, ALPN, curve, DidResume, ECHAccepted, ServerName == SNI parsed from the wire) and ExportKeyingMaterial compared for 27 (label, context, length) triples. distinct = (client, sni mode, server choice, client auth). ECH handshakes are compared by the same oracle inside C15."
 			c.Assumptions = []string{"EKM bytes are compared when both sides return bytes; a one-sided refusal is accepted only for the two documented reasons (renegotiation enabled, TLS<=1.2 without EMS)"}
 			runAll(c, c11Scenarios(thorough), 0)
 			c.Gate(c.Total.Counters["ekm_both_succeed"] >= 1000, "non-vacuity: %d both-succeed EKM comparisons", c.Total.Counters["ekm_both_succeed"])
